@@ -1,6 +1,143 @@
-//! Monitor for C22 (see /verif/DESIGN.md §5 C22).
-use vcommon::Args;
+//! C22 — market vaults stay solvent after every successful store instruction.
+//!
+//! Observed: after every successful transaction of the exchange workload (`sim.rs`), every market
+//! account and every shared SPL vault. Oracle (independent restatement of the property, BigInt-free
+//! because all quantities fit u128): per market and pool token
+//!   recorded balance ≥ liquidity + swap-impact + claimable-fee amounts,
+//!   recorded balance ≥ Σ position collateral in that token,
+//! and per vault: Σ over markets of recorded balances of that token ≤ SPL vault amount.
+use crate::sim::{Sim, StepRec};
+use crate::world::{exchange::load, World};
+use gmsol_model::{Balance, PoolKind};
+use gmsol_store::states::{HasMarketMeta, Market};
+use hostsvm::token;
+use std::collections::BTreeMap;
+use vcommon::{json, monitor::run_shards, Args, Monitor};
 
-pub fn run(_args: &Args) -> Option<i32> {
-    None
+/// Returns a list of `(signature class, detail)` for every solvency rule broken in `w`.
+pub fn solvency_violations(w: &World) -> Vec<(&'static str, String)> {
+    let mut out = vec![];
+    let mut per_token: BTreeMap<anchor_lang::prelude::Pubkey, u128> = BTreeMap::new();
+    for (i, mi) in w.markets.iter().enumerate() {
+        let Some(m) = load::<Market>(&w.svm, &mi.market) else {
+            continue;
+        };
+        let amt = |k: PoolKind, long: bool| -> u128 {
+            m.pool(k)
+                .map(|p| if long { p.long_amount().unwrap_or(0) } else { p.short_amount().unwrap_or(0) })
+                .unwrap_or(0)
+        };
+        let need = |long: bool| amt(PoolKind::Primary, long) + amt(PoolKind::SwapImpact, long) + amt(PoolKind::ClaimableFee, long);
+        let coll = |long: bool| amt(PoolKind::CollateralSumForLong, long) + amt(PoolKind::CollateralSumForShort, long);
+        let st = m.state();
+        let (bl, bs) = (st.long_token_balance_raw() as u128, st.short_token_balance_raw() as u128);
+        let meta = m.market_meta();
+        if m.is_pure() {
+            let bal = bl + bs;
+            let n = need(true) + need(false);
+            let c = coll(true) + coll(false);
+            if bal < n {
+                out.push(("pools_exceed_recorded_balance", format!("market {i} (pure): balance {bal} < liquidity+impact+fees {n}")));
+            }
+            if bal < c {
+                out.push(("collateral_exceeds_recorded_balance", format!("market {i} (pure): balance {bal} < collateral {c}")));
+            }
+            *per_token.entry(meta.long_token_mint).or_default() += bal;
+        } else {
+            for (long, bal, mint) in [(true, bl, meta.long_token_mint), (false, bs, meta.short_token_mint)] {
+                let (n, c) = (need(long), coll(long));
+                if bal < n {
+                    out.push((
+                        "pools_exceed_recorded_balance",
+                        format!("market {i} side long={long}: balance {bal} < liquidity+impact+fees {n}"),
+                    ));
+                }
+                if bal < c {
+                    out.push((
+                        "collateral_exceeds_recorded_balance",
+                        format!("market {i} side long={long}: balance {bal} < collateral {c}"),
+                    ));
+                }
+                *per_token.entry(mint).or_default() += bal;
+            }
+        }
+    }
+    for (mint, sum) in per_token {
+        let vault = token::token_amount(&w.svm, &w.vault(&mint)).unwrap_or(0) as u128;
+        if sum > vault {
+            out.push(("recorded_balances_exceed_vault", format!("token {mint}: Σ recorded {sum} > vault {vault}")));
+        }
+    }
+    out
+}
+
+pub fn run(args: &Args) -> Option<i32> {
+    let mut mon = Monitor::new(
+        args,
+        "random multi-market histories (4 markets sharing the SOL/USDC vaults, one single-token market; deposits, \
+         withdrawals, shifts, swap/position orders with swap paths, liquidations, ADL, fee claims, keeper transfers, \
+         price moves, clock warps, fault ops) executed through the real store instructions in hostsvm; the solvency \
+         oracle runs after every successful transaction. non-trivial = a successful transaction that changed a market \
+         account or a vault; distinct = hash of (operation kind, which markets / vaults changed)",
+    );
+    mon.assume("hostsvm runtime (no compute/heap limits); SPL token programs are the real processors");
+    let shards = args.scale(32, 256);
+    let steps = args.scale(350, 900);
+    let quiet = hostsvm::QuietStdout::new();
+    run_shards(&mut mon, args.threads, shards, |shard, m| {
+        let mut sim = Sim::new(args.seed, shard);
+        for v in solvency_violations(&sim.w) {
+            m.violation(&format!("C22:bootstrap:{}", v.0), json!({"detail": v.1}));
+        }
+        for step in 0..steps {
+            let rec: StepRec = sim.step();
+            m.count(&format!("op_{}", rec.op.name()));
+            match &rec.result {
+                Some(Ok(_)) => m.count(&format!("ok_{}", rec.op.name())),
+                Some(Err(_)) => m.count(&format!("err_{}", rec.op.name())),
+                None => {}
+            }
+            if !rec.ok() {
+                continue;
+            }
+            m.eval();
+            // which markets / vaults changed?
+            let mut changed = vec![];
+            for (i, mi) in sim.w.markets.iter().enumerate() {
+                if rec.pre.get(&mi.market) != sim.w.svm.get(&mi.market) {
+                    changed.push(i as u8);
+                }
+            }
+            for t in [sim.tok.sol, sim.tok.usdc] {
+                let v = sim.w.vault(&sim.w.tokens[t].mint);
+                if rec.pre.get(&v) != sim.w.svm.get(&v) {
+                    changed.push(100 + t as u8);
+                }
+            }
+            if !changed.is_empty() {
+                let mut sig = rec.op.name().as_bytes().to_vec();
+                sig.extend_from_slice(&changed);
+                m.nontrivial(&sig);
+                m.count("state_changing_tx");
+            }
+            let v = solvency_violations(&sim.w);
+            if !v.is_empty() {
+                for (class, detail) in v {
+                    m.violation(
+                        &format!("C22:{}:{}", rec.op.name(), class),
+                        json!({"shard": shard, "step": step, "detail": detail, "history": sim.history}),
+                    );
+                }
+                break;
+            }
+            if m.wants_sample() && !changed.is_empty() && step % 37 == 5 {
+                m.sample(json!({"shard": shard, "step": step, "op": format!("{:?}", rec.op), "changed": changed}));
+            }
+        }
+        m.add("positions_open_at_end", sim.open_positions().len() as u64);
+    });
+    drop(quiet);
+    mon.require("state_changing_tx", 500);
+    mon.require("ok_execute", 100);
+    Some(mon.finish())
 }
